@@ -718,7 +718,9 @@ func judged(rel string) bool {
 
 func judge(c *common.Ctx, cr *caseResult) {
 	name := cr.rp.File
-	if name == "" {
+	if cr.rp.Kind == "direct" {
+		name = fmt.Sprintf("seed-built protobuf module (seed %d)", cr.rp.Seed)
+	} else if name == "" {
 		name = "generated specification"
 		if cr.rp.Strip != "" {
 			name += " (source contexts stripped: " + cr.rp.Strip + ")"
